@@ -4,10 +4,10 @@
 //@ harness c04_poll_next_identity_step kind=proof tier=quick timeout=1200 covers=2
 //@ harness c04_poll_next_varint_prefix_step kind=proof tier=quick timeout=1200 covers=3
 //@ harness c04_poll_next_varint_body_step kind=proof tier=quick timeout=1200 covers=2
-//@ harness c04_sink_start_send kind=proof tier=quick timeout=1200 covers=3
-//@ harness c04_sink_flush_complete_means_drained kind=proof tier=quick timeout=1200 covers=2
-//@ harness c04_send_identity_payload kind=proof tier=quick timeout=1200 covers=2
-//@ harness c04_send_varint_payload kind=proof tier=quick timeout=1200 covers=2
+//@ harness c04_sink_start_send kind=bounded tier=quick timeout=1200 covers=3 bound="item length 0..=300 (one- and two-byte prefixes), identity size <= 2^40"
+//@ harness c04_sink_flush_complete_means_drained kind=bounded tier=quick timeout=1200 covers=2 bound="one parked frame of <= 2 bytes plus at most one queued frame of <= 2 bytes; carrier parks after 2 writes"
+//@ harness c04_send_identity_payload kind=bounded tier=quick timeout=1200 covers=2 bound="payload of 0..=3 bytes, carrier parks after 4 polls"
+//@ harness c04_send_varint_payload kind=bounded tier=quick timeout=1200 covers=2 bound="payload of 0..=3 bytes, carrier parks after 5 polls"
 //@ harness c04_canary kind=canary tier=quick timeout=120
 //
 // C04 — framed substream messages.  Child module of crate::substream: sees the private fields of `Substream`.
@@ -137,7 +137,7 @@ fn c04_read_payload_size() {
 }
 
 // ---- Stream::poll_next, fixed-size frames ---------------------------------------------------------------
-const IDENTITY_CAP: usize = 1 << 16;
+const IDENTITY_CAP: usize = 1 << 40;
 
 /// P1 (no panic) on the very first poll of a fresh substream, for EVERY fixed frame size (the constructor's real
 /// initial buffers), and P2: a delivered frame has exactly the configured size.
@@ -195,7 +195,7 @@ static mut ZEROED_MAX: usize = 0;
 #[kani::stub(<crate::transport::tcp::Substream as tokio::io::AsyncRead>::poll_read, nd_poll_read)]
 fn c04_poll_next_varint_prefix_step() {
     let max: Option<usize> = if kani::any() { Some(kani::any()) } else { None };
-    if let Some(m) = max { kani::assume(m <= 1 << 16); }
+    if let Some(m) = max { kani::assume(m <= 1 << 40); }
     let mut s = fresh(ProtocolCodec::UnsignedVarint(max));
     let prefix: [u8; 10] = kani::any();
     s.size_vec = BytesMut::from(&prefix[..]);
@@ -234,7 +234,7 @@ fn c04_poll_next_varint_prefix_step() {
 fn c04_poll_next_varint_body_step() {
     let max: Option<usize> = if kani::any() { Some(kani::any()) } else { None };
     let sz: usize = kani::any();
-    kani::assume(sz >= 1 && sz <= 1 << 16);
+    kani::assume(sz >= 1 && sz <= 1 << 40);
     if let Some(m) = max { kani::assume(sz <= m); }
     let mut s = fresh(ProtocolCodec::UnsignedVarint(max));
     s.read_buffer = BytesMut::zeroed(sz);
